@@ -17,5 +17,5 @@ CONSTANTS
   FBits = 3
   FMaxTicks = 2
   FBug = "none"
-  FFixed = {}
+  FFixed = {"fresh_fake_nodes"}
 CHECK_DEADLOCK FALSE
